@@ -90,3 +90,35 @@ func WithDeadline(p Context, t time.Time) (Context, CancelFunc) {
 	}
 	return &deadlineCtx{Context: inner, deadline: t, timedOut: &timedOut}, cancel
 }
+
+// AfterFunc runs f in a scheduler thread once ctx is done; stop reports whether it prevented that.
+func AfterFunc(ctx Context, f func()) (stop func() bool) {
+	stopped, fired := false, false
+	if ctx.Done() != nil {
+		vrt.GoNamed("ctx-afterfunc", func() {
+			vrt.Op(func() bool {
+				if stopped {
+					return true
+				}
+				select {
+				case <-ctx.Done():
+					return true
+				default:
+					return false
+				}
+			}, 0, "ctx.AfterFunc-wait")
+			if !stopped {
+				fired = true
+				f()
+			}
+		})
+	}
+	return func() bool {
+		if fired || stopped {
+			return false
+		}
+		stopped = true
+		vrt.Progress()
+		return true
+	}
+}
